@@ -3,6 +3,7 @@ import itertools
 
 from .. import prim
 from . import common as C
+from . import shared
 
 META = {
     "explanation": "C10.R1 who-may-call over every fs-mutating API in all workspace crates (removal only via remove_dir/remove_file in DeleteMatcher::delete, argument = the entry's own path()); "
@@ -146,6 +147,9 @@ def run(ctx):
         # only the delete() Result decides truth; it must be called at most once per path (one removal attempt per entry)
         n_del = len([1 for n in g.nodes if isinstance(n, tuple) and n[0] == "ev" and n[2] == "delete"])
         ctx.ob("R3", "single-attempt", n_del == 1, "delete() call sites in matches: %d (exactly one removal attempt per entry)" % n_del, fn=f)
+
+    # find's exit status keeps a failed removal (sticky through later entries and starting points)
+    shared.sticky_exit_status(ctx, "R3")
 
     # ---- R4 -delete implies -depth -----------------------------------------------------------
     fn, d, arms, info = C.parser_arms(ctx, "R4")
